@@ -289,6 +289,11 @@ def _cases(draw):
 
     S = [column() for _ in range(ns)]
     Z = [column() for _ in range(no)]
+    if draw(st.integers(0, 5)) == 0:
+        # a sensitive column that varies little around a large offset (a year, an id): still has to be regressed out
+        j = draw(st.integers(0, ns - 1))
+        big = draw(st.sampled_from([1000000, 20000000])) * (10 if decimal else 1)
+        S[j] = [v + big for v in S[j]]
     mode = draw(st.sampled_from(["free", "free", "free", "collinear", "constant", "leak"]))
     if mode == "collinear" and ns >= 2:
         tgt = draw(st.integers(0, ns - 1))
